@@ -184,7 +184,32 @@ func c09KeyAgreement(c *Ctx) {
 				"the key buffer is allocated outside the loop that builds the keys; the keys alias one buffer")
 			// position argument: int64 of the range index over the per-position key list
 			it := termF(s.Args()[1])
-			c.check(isRangeIndex(s.Args()[1]), "bloom-key-agreement", construct+" position", p.Pos(s.Pos()), "position is the plain range index of the key list", "the position mixed into the bloom key is "+it+", not the plain key index: writer and readers disagree")
+			posOK := isRangeIndex(s.Args()[1])
+			if !posOK {
+				// the keys of one position may be built by a helper that receives the position as a parameter
+				// (`positionalBloomKeys(index, alternatives)`): then the argument is the range index at every call
+				v := s.Args()[1]
+				if cv, isCv := v.(*ssa.Convert); isCv {
+					v = cv.X // int64(index)
+				}
+				if pa, isPa := v.(*ssa.Parameter); isPa && !ast.IsExported(fn.Name()) {
+					idx := -1
+					for i, q := range fn.Params {
+						if q == pa {
+							idx = i
+						}
+					}
+					callers := p.callersOf(fn)
+					posOK = idx >= 0 && len(callers) > 0
+					for _, cs := range callers {
+						args := cs.Instr.Common().Args
+						if idx >= len(args) || !isRangeIndex(args[idx]) {
+							posOK = false
+						}
+					}
+				}
+			}
+			c.check(posOK, "bloom-key-agreement", construct+" position", p.Pos(s.Pos()), "position is the plain range index of the key list", "the position mixed into the bloom key is "+it+", not the plain key index: writer and readers disagree")
 		}
 	}
 	if nv < 3 {
@@ -197,7 +222,7 @@ func c09KeyAgreement(c *Ctx) {
 			continue
 		}
 		c.saw(qname(f))
-		if findSite(f, "AppendVarint") == nil {
+		if len(p.deepSites(f, nameMatcher("AppendVarint"), 2)) == 0 {
 			c.viol("bloom-key-agreement", qname(f), p.Pos(fnPos(f)), "this bloom reader/writer no longer encodes (key, position) with AppendVarint")
 		}
 	}
